@@ -40,7 +40,8 @@ func init() {
 		}
 		return fr.i.freeChoice(int(asInt64(a[0])), "order")
 	})
-	reg("github.com/arr-ai/frozen.modelOrderFree", func(fr *frame, a []value) value { return fr.i.orderFree })
+	reg("github.com/arr-ai/frozen.modelOrderFree", func(fr *frame, a []value) value { return fr.i.orderFree && fr.i.orderBudget > 0 })
+	reg("github.com/arr-ai/frozen.modelDeviated", func(fr *frame, a []value) value { fr.i.orderBudget--; return nil })
 	reg("github.com/arr-ai/hash.modelUnsupported", func(fr *frame, a []value) value {
 		panic(unsupported("model: " + toString(a[0])))
 	})
@@ -663,9 +664,16 @@ func (i *interpreter) floatBits(f *smt.Term) *smt.Term {
 	if f.Op == "((_ to_fp 11 53)" && len(f.Args) == 1 && f.Args[0].S == smt.BV(64) {
 		return f.Args[0]
 	}
-	// fresh bits constrained to denote f
+	// fresh bits constrained to denote f (one variable per term and path)
+	if b, ok := i.fbitsMemo[f.ID]; ok {
+		return b
+	}
 	b := st.Var(smt.BV(64), "fbits")
 	i.solver.Assert(st, st.Eq(st.FPFromBits(b), f))
+	if i.fbitsMemo == nil {
+		i.fbitsMemo = map[int]*smt.Term{}
+	}
+	i.fbitsMemo[f.ID] = b
 	return b
 }
 
